@@ -424,7 +424,7 @@ def run(ctx):
 
     # ---- direction A
     workers = 24 if ctx.quick else 32
-    wall = 22 if ctx.quick else 210
+    wall = 22 if ctx.quick else 250
     share = {"selq": 0.5, "sel": 0.55, "val": 0.3, "ptr": 0.15}
     tours, pstats = [], {}
     for u, g in graphs.items():
@@ -473,8 +473,9 @@ def run(ctx):
         raise vlib.Inconclusive("vacuous traces: %s %s %s" % (dict(tkinds), dict(tcodes), dict(tcls)))
 
     exhaustive = not any(st["stopped_by_budget"] for st in pstats.values())
-    nontrivial = sum(1 for t in tours for s in t["steps"] if (s["a"] == "set" and s["res"][0]["code"] == 400)
-                     or (s["a"] == "ask" and any(a["must"] or len(a["may"]) > 1 or a["cls"] in ("nx", "local", "fail") for a in s["alts"])))
+    nontrivial = len({(t["uni"], canon({k: v for k, v in s.items() if k != "a"})) for t in tours for s in t["steps"]
+                      if (s["a"] == "set" and s["res"][0]["code"] == 400)
+                      or (s["a"] == "ask" and any(a["must"] or len(a["may"]) > 1 or a["cls"] in ("nx", "local", "fail") for a in s["alts"]))})
     samples = []
     for t in tours[:2]:
         samples.append({"tour": t["id"], "uni": t["uni"], "sys": t["sys"], "steps": t["steps"][:3]})
@@ -489,8 +490,9 @@ def run(ctx):
         "distinct_nontrivial": nontrivial,
         "rule": "an evaluation is one dns_config call (status code, dns_info and server liveness compared with the specification's result) or one "
                 "question sent over UDP (receiving mocks, answering mock and response class compared with the admissible outcomes of the "
-                "specification's verdict table); non-trivial = a rejected dns_config call, or a question whose admissible outcome is a local "
-                "answer / NXDOMAIN / SERVFAIL, names several upstreams, or demands that failing upstreams were tried first",
+                "specification's verdict table); non-trivial = distinct (request, admissible results) pairs of rejected dns_config calls and distinct "
+                "(locality, question, admissible outcomes) triples whose outcome is a local answer / NXDOMAIN / SERVFAIL, names several "
+                "upstreams, or demands that failing upstreams were tried first",
         "flaky": len(flaky), "tours_not_run": len(errors), "steps_cut_after_disagreement": stats.get("cut", 0),
         "truncated_by_known_finding": sum(st["tours_ended_by_known_finding"] for st in pstats.values()),
         "histories_ended_by_known_finding": by_key,
